@@ -102,21 +102,29 @@ class Arr:
             return [rec(x) for x in d] if isinstance(d, list) else (not d)
         return Arr(rec(self.data))
 
-    def all(self, *_a, **k):
-        if k.get("axis") is not None or _a:
-            raise TypeError("axis reductions are not modelled")
+    def _reduce(self, f, args, k):
+        axis = k.get("axis", args[0] if args else None)
 
-        def rec(d):
-            return all(rec(x) for x in d) if isinstance(d, list) else bool(d)
-        return rec(self.data)
+        def full(d):
+            return f(full(x) for x in d) if isinstance(d, list) else bool(d)
+        if axis is None:
+            return full(self.data)
+        nd = self.ndim
+        if axis not in (-1, nd - 1):
+            raise TypeError("only reductions along the last axis are modelled")
 
-    def any(self, *_a, **k):
-        if k.get("axis") is not None or _a:
-            raise TypeError("axis reductions are not modelled")
+        def last(d, depth):
+            if depth == nd - 1:
+                return f(bool(x) for x in d)
+            return [last(x, depth + 1) for x in d]
+        r = last(self.data, 0)
+        return Arr(r) if isinstance(r, list) else r
 
-        def rec(d):
-            return any(rec(x) for x in d) if isinstance(d, list) else bool(d)
-        return rec(self.data)
+    def all(self, *a, **k):
+        return self._reduce(all, a, k)
+
+    def any(self, *a, **k):
+        return self._reduce(any, a, k)
 
     def sum(self, *_a, **_k):
         return sum(self.data)
@@ -157,7 +165,25 @@ class Arr:
         r = get(self.data, ks)
         return Arr(r) if isinstance(r, list) else r
 
+    def eq_elementwise(self, other) -> "Arr":
+        "elementwise == (kept apart from __eq__, which is structural equality for the rules)"
+        return self._zip(other, lambda a, b: a == b)
+
     def __setitem__(self, key, value) -> None:
+        if isinstance(key, Arr) and key.shape == self.shape[:key.ndim] and key.ndim >= 1:
+            # boolean mask store
+            v = value.data if isinstance(value, Arr) else value
+
+            def put_mask(d, m):
+                for i, mm in enumerate(m):
+                    if isinstance(mm, list):
+                        put_mask(d[i], mm)
+                    elif mm is True:
+                        d[i] = v
+                    elif mm is not False:
+                        raise TypeError("mask store with a non-boolean mask")
+            put_mask(self.data, key.data)
+            return
         ks = self._norm_key(key, self.ndim)
         v = value.data if isinstance(value, Arr) else value
 
@@ -223,7 +249,24 @@ def _split(arr, points, axis=0):
     return out
 
 
+def _pad(arr, pad_width, mode="constant", constant_values=0, **_k):
+    pw = _to_data(pad_width)
+    if isinstance(pw, int):
+        pw = [[pw, pw]] * arr.ndim
+    elif pw and isinstance(pw[0], int):
+        pw = [list(pw)] * arr.ndim
+    if mode != "constant" or arr.ndim != 2 or len(pw) != 2:
+        raise TypeError("only constant padding of 2-d arrays is modelled")
+    (t, b), (l, r) = pw
+    w = len(arr.data[0]) if arr.data else 0
+    rows = [[constant_values] * (w + l + r) for _ in range(t)]
+    rows += [[constant_values] * l + list(row) + [constant_values] * r for row in arr.data]
+    rows += [[constant_values] * (w + l + r) for _ in range(b)]
+    return Arr(rows)
+
+
 MODELS = {
+    "np.pad": _pad,
     "np.empty": lambda shape, *a, **k: _full(shape, UNINIT),
     "np.zeros": lambda shape, *a, **k: _full(shape, 0),
     "np.ones": lambda shape, *a, **k: _full(shape, 1),
